@@ -740,7 +740,8 @@ namespace fixedmath
       //maximum performance for values in range thus fixed_unlikely
       if( fixed_unlikely( rad < -phi2 || rad > phi+phi2 ) )
         {
-        rad = as_fixed( ( phi2.v + rad.v) % _2phi.v - phi2.v );
+        //reduce rad first, phi2.v + rad.v overflows for rad close to limits of fixed_internal
+        rad = as_fixed( ( phi2.v + rad.v % _2phi.v ) % _2phi.v - phi2.v );
         if( fixed_unlikely( rad < -phi2 ) )
           rad = as_fixed( rad.v + _2phi.v );
         }
